@@ -168,6 +168,11 @@ theorem stopLoop_bg (cfg : Cfg) (s : St) (err : Option GErr) (user : Bool) : BG 
 theorem stopCall_bg (cfg : Cfg) (s : St) (err : Option GErr) (user : Bool) : BG (stopCall cfg s err user).2 :=
   stopLoop_bg _ _ _ _
 
+theorem userStop_bg (cfg : Cfg) (s : St) : BG (userStop cfg s).2 := by
+  rcases userStop_cases cfg s with ⟨hu, _, _⟩ | hu <;> rw [hu]
+  · intro o ho; simp only [List.mem_singleton] at ho; subst ho; rfl
+  · exact stopCall_bg _ _ _ _
+
 theorem rejoinAfterError_bg (cfg : Cfg) (s : St) (e : GErr) : BG (rejoinAfterError cfg s e).2 := by
   unfold rejoinAfterError
   simp only []
